@@ -30,6 +30,52 @@ class Index:
         self._src = {}
         self.consulted = []
 
+    def make_resolver(self, rels=None):
+        """name -> FunctionDef for module-level functions and `Class.function` (functions without self/cls) of the given files
+        (default: all of src/), unique names only"""
+        table = {}
+        dup = set()
+        for rel in (rels or self.py_files("src")):
+            try:
+                mod = self.module(rel)
+            except Exception:
+                continue
+            for st in mod.body:
+                if isinstance(st, ast.FunctionDef):
+                    (dup if st.name in table else table).__class__  # no-op, keeps flake quiet
+                    if st.name in table:
+                        dup.add(st.name)
+                    table[st.name] = st
+                if isinstance(st, ast.ClassDef):
+                    for m in st.body:
+                        if isinstance(m, ast.FunctionDef) and not (m.args.args and m.args.args[0].arg in ("self", "cls")):
+                            key = f"{st.name}.{m.name}"
+                            if key in table:
+                                dup.add(key)
+                            table[key] = m
+        for d in dup:
+            table.pop(d, None)
+        return lambda name: table.get(name)
+
+    def make_global_literals(self, rels=None):
+        """module-level `NAME = <literal>` (numbers, strings, tuples/lists/dicts of them) of the given files, unique names only"""
+        table, dup = {}, set()
+        for rel in (rels or self.py_files("src")):
+            try:
+                mod = self.module(rel)
+            except Exception:
+                continue
+            for st in mod.body:
+                if isinstance(st, ast.Assign) and len(st.targets) == 1 and isinstance(st.targets[0], ast.Name) and not any(
+                        isinstance(n, (ast.Name, ast.Call, ast.Attribute)) for n in ast.walk(st.value)):
+                    nme = st.targets[0].id
+                    if nme in table:
+                        dup.add(nme)
+                    table[nme] = st.value
+        for d in dup:
+            table.pop(d, None)
+        return table
+
     def path(self, rel):
         return os.path.join(self.root, rel)
 
